@@ -274,7 +274,7 @@ func run(sc *h.Scenario, isQuic bool) *h.Rec {
 		kind = "quic"
 	}
 	rec.Log("Reset", "kind", sc.Kind, "p", h.Ev{"kind": kind, "mode": mode, "level": level, "bits": bits, "fam": fam,
-		"content": pstr(p, "content", "rep"), "rchunk": rchunk, "excl": b2i(excl)})
+		"content": pstr(p, "content", "rep"), "rchunk": rchunk, "excl": b2i(excl), "backend": pstr(p, "backend", "coder")})
 	r := &runner{rec: rec, quic: isQuic, seed: pint(p, "seed", 1), content: pstr(p, "content", "rep"),
 		sent: map[int]*sentMsg{}, nq: map[int]int{}, ind: newIndep(mode, level, bits)}
 	np := negotiated(mode, level, bits)
@@ -300,6 +300,8 @@ func run(sc *h.Scenario, isQuic bool) *h.Rec {
 		r.a, r.b = ta, tb
 	} else {
 		ab, ba := newLane(excl, fam == "gated", rchunk), newLane(true, false, 0)
+		ab.strict = pstr(p, "backend", "coder") != "gorilla" // coder (default backend) and nhooyr share the reader contract
+		ba.strict = ab.strict
 		r.ab = ab
 		r.wsA = websocket.New(websocket.Config{Conn: &end{out: ab, in: ba}, NegotiationParams: websocket.NegotiationParams{NegotiationParams: np}})
 		r.wsB = websocket.New(websocket.Config{Conn: &end{out: ba, in: ab}, NegotiationParams: websocket.NegotiationParams{NegotiationParams: np}})
